@@ -1,5 +1,5 @@
 /- L0 facts about the accessors, Display and Default of EfficiencyRatio (split from Lemmas/EfficiencyRatio.lean so that a change to one method only invalidates the facts about that method) -/
-import TaRs.Lemmas.EfficiencyRatio
+import TaRs.Lemmas.Core.EfficiencyRatio
 set_option linter.unusedSectionVars false
 namespace TaRs.Gen.EfficiencyRatio
 open TaRs TaRs.Rs
